@@ -397,7 +397,7 @@ impl ThreadPool {
         self.sender.send(Message::NewJob(job)).unwrap();
         #[cfg(varlink_rust_verif)]
         crate::verif::probe(crate::verif::Point::ExecBeforeBusyRead);
-        if ((self.num_busy() + 1) >= self.workers.len()) && (self.workers.len() <= self.max_workers)
+        if ((self.num_busy() + 1) >= self.workers.len()) && (self.workers.len() < self.max_workers)
         {
             self.workers.push(Worker::new(
                 Arc::clone(&self.receiver),
